@@ -1,11 +1,31 @@
 /-
   C09, third wave — the lexer (/repo/internal/lexer/lexer.go) in the tick-writer monad of `C09CTick.lean`.
 
+  THE UNIT.  In this file one tick is ONE CALL OF `(*Lexer).decodeRune` (lexer.go:396, one `utf8.DecodeRuneInString`),
+  wherever Go makes it and whether or not it succeeds:
+    * the decode at the head of every iteration of a `for { … }` loop (lexer.go:29, :411, :441, :459, :489, :519,
+      :558) is the tick that `forBrkT` charges for the iteration (the iteration that leaves the loop included);
+    * the second decode after a backslash inside a delimited token (lexer.go:429, :477, :507) is an explicit `tick`
+      in `scanBody`, charged also when that decode fails;
+    * every look-ahead `l.decodeRune(start+sz)` of `Next` (lexer.go:65 `&`, :126 `-`, :139 `.`, :158 `/`, :185 `<`,
+      :204 `=`, :223 `>`, :250 and :253 `[`, :312 `|`, :365 `!`) and the first decode of `variable` (lexer.go:544,
+      after `$`) is a `peekT` — one tick — on exactly the branches where Go performs it (the second look-ahead after
+      `[` only when the first one decoded `*`).
+  The rune the `switch` of `Next` dispatches on is NOT decoded again: it is the rune decoded by the last iteration of
+  the whitespace loop (lexer.go:29), whose tick is the one `forBrkT` charges for the breaking iteration of
+  `skipWsBody`; so the `lexDecode s` at the head of `lexTokenT` is free, and `lexTokenT` alone counts the decodes
+  that `Next` makes AFTER its whitespace loop.  When the first rune is not blank the whitespace loop runs one
+  iteration = one tick = that one decode.  The tests `l.position == len(l.expression)` (lexer.go:17 before the loop,
+  :40 inside it) decode nothing and cost nothing: `skipWsT` on the empty input and the `.brk []` exit of `skipWsBody`.
+  On top of the decodes, the token-stream loop `lexAllT` charges one tick per `Next` CALL (its `forBrkT` iteration).
+
   Every loop of the Go lexer is an unbounded `for { … }` whose every continuing iteration advances `next` /
-  `l.position` by the size `sz ≥ 1` of a decoded rune.  The mirrors below are `forBrkT` loops (one tick per iteration
-  by construction) with the bound `len(expression) + 1`, which the model's functions also carry as fuel.  Proved:
-  the instrumented lexer returns the token stream of the model (`lexAllT_fst`), in at most `4·|expr| + 4` ticks
-  (`lexAllT_snd_le`): a single forward pass — no token, literal or identifier is scanned twice.
+  `l.position` by the size `sz ≥ 1` of a decoded rune.  The mirrors below are `forBrkT` loops with the bound
+  `len(expression) + 1` (resp. `len(expression)`), which the model's functions also carry as fuel; that this bound
+  is never what ends a loop is proved in `Jmes/Proofs/C09EFuelLex.lean`.  Proved here: the instrumented lexer
+  returns the token stream of the model (`lexAllT_fst`), in at most `4·|expr| + 4` ticks (`lexAllT_snd_le`): a
+  single forward pass — no token, literal or identifier is scanned twice; one `Next` costs at most the bytes of its
+  token plus one (`lexTokenT_snd_le`, reached by `[*x`: two look-aheads for a one-byte token).
 -/
 import Jmes.Proofs.C09CTick
 import Jmes.Proofs.Lex
@@ -22,7 +42,8 @@ def Ctl.get {σ : Type} : Ctl σ → σ
 
 /-- body of lexer.go:440 (`numberLiteral`), lexer.go:518 (`unquotedIdentifier`), lexer.go:557 (`variable`):
     `r, sz, err := l.decodeRune(next); if err == nil && p(r) { next += sz; continue }; …; return nil`;
-    the state is (remaining input, bytes spanned) -/
+    the state is (remaining input, bytes spanned).  One decode per iteration = the tick of the `forBrkT` iteration;
+    the iteration that stops (its decode fails or yields a rune outside `p`) is charged too. -/
 def spanBody (p : Nat → Bool) (st : Bytes × Nat) : T (Ctl (Bytes × Nat)) :=
   match lexDecode st.1 with
   | .ok (r, sz) => if p r then pure (.next (st.1.drop sz, st.2 + sz)) else pure (.brk st)
@@ -59,7 +80,7 @@ theorem spanLoop (p : Nat → Bool) : ∀ (fuel : Nat) (s : Bytes) (n : Nat),
 /-- the identifier / digit scan returns what the model's `spanRunes` returns … -/
 theorem spanRunesT_fst (p : Nat → Bool) (fuel : Nat) (s : Bytes) : (spanRunesT p fuel s).1 = spanRunes p fuel s := by
   simp [spanRunesT, (spanLoop p fuel s 0).1]
-/-- … in one iteration per byte spanned plus the one that stops -/
+/-- … in at most one decode per byte spanned plus the one that stops -/
 theorem spanRunesT_snd_le (p : Nat → Bool) (fuel : Nat) (s : Bytes) :
     (spanRunesT p fuel s).2 ≤ spanRunes p fuel s + 1 := by
   simp only [spanRunesT, bind_snd, pure_snd]; have := (spanLoop p fuel s 0).2; omega
@@ -69,13 +90,16 @@ example : spanRunesT isDigitR 100 [0x31, 0x32, 0x33, 0x5D] = ⟨3, 4⟩ := by de
 /-- body of lexer.go:410 (`jsonLiteral`), lexer.go:458 (`quotedIdentifier`), lexer.go:488 (`stringLiteral`):
     `r, sz, err := l.decodeRune(next); if err != nil { return err }; next += sz; if r == delim { …; return nil };
     if r == '\\' { _, sz, err := l.decodeRune(next); if err != nil { return err }; next += sz }`;
-    the state is ((remaining input, bytes consumed), outcome) -/
+    the state is ((remaining input, bytes consumed), outcome).  The first decode is the tick of the `forBrkT`
+    iteration; the second decode (after a backslash; lexer.go:429 / :477 / :507) is the explicit `tick`, charged
+    before its outcome is known, so also when it fails. -/
 def scanBody (delim : Nat) (st : (Bytes × Nat) × Except LexErr Nat) : T (Ctl ((Bytes × Nat) × Except LexErr Nat)) :=
   match lexDecode st.1.1 with
   | .error e => pure (.brk (st.1, .error e))
   | .ok (r, sz) =>
     if r = delim then pure (.brk (st.1, .ok (st.1.2 + sz)))
-    else if r = 0x5C then
+    else if r = 0x5C then do
+      tick                                                    -- the second `l.decodeRune(next)`
       match lexDecode (st.1.1.drop sz) with
       | .error e => pure (.brk (st.1, .error e))
       | .ok (_, sz2) => pure (.next ((st.1.1.drop (sz + sz2), st.1.2 + sz + sz2), st.2))
@@ -110,9 +134,9 @@ theorem scanLoop (delim : Nat) : ∀ (fuel : Nat) (s : Bytes) (n : Nat),
         injection hm with hm; omega
       · simp only [hd, if_false]
         by_cases hb : r = 0x5C
-        · simp only [hb, if_true]
+        · simp only [hb, if_true, bind_fst, bind_snd, tick_snd, tick_fst]
           cases h2 : lexDecode (s.drop sz) with
-          | error e => simp [Ctl.get]
+          | error e => simp [Ctl.get]; omega
           | ok q2 =>
             obtain ⟨r2, sz2⟩ := q2
             have hpos2 := Lex.lexDecode_pos h2
@@ -132,7 +156,8 @@ theorem scanLoop (delim : Nat) : ∀ (fuel : Nat) (s : Bytes) (n : Nat),
 theorem scanDelimT_fst (delim fuel : Nat) (s : Bytes) (n : Nat) :
     (scanDelimT delim fuel s n).1 = scanDelim delim fuel s n := by
   simp [scanDelimT, (scanLoop delim fuel s n).1]
-/-- … in at most one iteration per byte of the remaining input … -/
+/-- … in at most one decode per byte of the remaining input, plus one (a backslash costs two decodes and, unless it
+    ends the scan with an error, consumes at least two bytes) … -/
 theorem scanDelimT_snd_le (delim fuel : Nat) (s : Bytes) (n : Nat) : (scanDelimT delim fuel s n).2 ≤ s.length + 1 := by
   simp only [scanDelimT, bind_snd, pure_snd]; have := (scanLoop delim fuel s n).2.1; omega
 /-- … and, when the closing delimiter is found, at most one per byte of the token -/
@@ -140,37 +165,53 @@ theorem scanDelimT_snd_ok (delim fuel : Nat) (s : Bytes) (n m : Nat) (h : scanDe
     (scanDelimT delim fuel s n).2 + n ≤ m := by
   simp only [scanDelimT, bind_snd, pure_snd]; have := (scanLoop delim fuel s n).2.2 m h; omega
 
+/-- `'a\'b']` after the opening quote: 4 iterations (`a`, `\`, `b`, `'`) and the extra decode of the rune after the
+    backslash — 5 decodes for the 5 bytes scanned -/
 example : (scanDelimT 0x27 100 [0x61, 0x5C, 0x27, 0x62, 0x27, 0x5D] 1).1 = .ok 6 ∧
-    (scanDelimT 0x27 100 [0x61, 0x5C, 0x27, 0x62, 0x27, 0x5D] 1).2 = 4 := ⟨by rfl, by decide⟩
+    (scanDelimT 0x27 100 [0x61, 0x5C, 0x27, 0x62, 0x27, 0x5D] 1).2 = 5 := ⟨by rfl, by decide⟩
+/-- a backslash as the last byte: the failing second decode is charged (2 decodes for 1 byte) -/
+example : (scanDelimT 0x27 100 [0x5C] 1).1 = .error .unexpectedEnd ∧ (scanDelimT 0x27 100 [0x5C] 1).2 = 2 :=
+  ⟨by rfl, by decide⟩
 
 /-! ## one token: `(*Lexer).Next` after the whitespace loop -/
 
+/-- a look-ahead `nr, nsz, err := l.decodeRune(start + sz)`: ONE decode, one tick, whether or not it succeeds -/
+def peekT (s : Bytes) (sz : Nat) : T (Option (Nat × Nat)) := do tick; pure (peek s sz)
+
+@[simp] theorem peekT_fst (s : Bytes) (sz : Nat) : (peekT s sz).1 = peek s sz := rfl
+@[simp] theorem peekT_snd (s : Bytes) (sz : Nat) : (peekT s sz).2 = 1 := rfl
+
 /-- lexer.go:51-394, the `switch r` of `Next` with the scanning functions it calls: the model's `lexToken` with the
-    instrumented loops in place of `scanDelim` / `spanRunes`; every other branch is straight-line code -/
+    instrumented loops in place of `scanDelim` / `spanRunes` and `peekT` (one tick) in place of `peek` at every
+    look-ahead Go performs; every other branch is straight-line code without a decode.  The `lexDecode s` at the head
+    is the rune ALREADY decoded by the breaking iteration of the whitespace loop (lexer.go:29) and charged there
+    (`skipWsBody`); it costs nothing here. -/
 def lexTokenT (s : Bytes) : T (Except LexErr (Token × Nat)) :=
   match lexDecode s with
   | .error e => pure (.error e)
   | .ok (r, sz) =>
     let tok (t : TokenType) (n : Nat) : Except LexErr (Token × Nat) := .ok (⟨t, s.take n⟩, n)
-    let two (c : Nat) (t2 t1 : TokenType) : Except LexErr (Token × Nat) :=
-      match peek s sz with
-      | some (nr, nsz) => if nr = c then tok t2 (sz + nsz) else tok t1 sz
-      | none => tok t1 sz
+    let two (c : Nat) (t2 t1 : TokenType) : T (Except LexErr (Token × Nat)) := do
+      let p ← peekT s sz                                         -- `nr, nsz, err := l.decodeRune(start + sz)`
+      pure (match p with
+        | some (nr, nsz) => if nr = c then tok t2 (sz + nsz) else tok t1 sz
+        | none => tok t1 sz)
     if r = 0x22 then do
       let x ← scanDelimT 0x22 (s.length + 1) (s.drop sz) sz      -- lexer.go:458
       pure (match x with
        | .ok n => tok .quotedIdentifier n
        | .error e => .error e)
-    else if r = 0x24 then
-      (match peek s sz with
+    else if r = 0x24 then do
+      let p ← peekT s sz                                         -- lexer.go:544
+      match p with
        | some (nr, nsz) =>
          if isAlphaR nr then do
            let k ← spanRunesT (fun r => isAlphaR r || isDigitR r) s.length (s.drop (sz + nsz))   -- lexer.go:557
            pure (tok .variable (sz + nsz + k))
          else pure (tok .root sz)
-       | none => pure (tok .root sz))
+       | none => pure (tok .root sz)
     else if r = 0x25 then pure (tok .modulo sz)
-    else if r = 0x26 then pure (two 0x26 .and .expression)
+    else if r = 0x26 then two 0x26 .and .expression              -- lexer.go:65
     else if r = 0x27 then do
       let x ← scanDelimT 0x27 (s.length + 1) (s.drop sz) sz      -- lexer.go:488
       pure (match x with
@@ -181,32 +222,35 @@ def lexTokenT (s : Bytes) : T (Except LexErr (Token × Nat)) :=
     else if r = 0x2A then pure (tok .asterisk sz)
     else if r = 0x2B then pure (tok .add sz)
     else if r = 0x2C then pure (tok .comma sz)
-    else if r = 0x2D then
-      (match peek s sz with
+    else if r = 0x2D then do
+      let p ← peekT s sz                                         -- lexer.go:126
+      match p with
        | some (nr, nsz) =>
          if isDigitR nr then do
            let k ← spanRunesT isDigitR s.length (s.drop (sz + nsz))                               -- lexer.go:440
            pure (tok .integerLiteral (sz + nsz + k))
          else pure (tok .subtract sz)
-       | none => pure (tok .subtract sz))
-    else if r = 0x2E then pure (two 0x2A .objectWildcard .dot)
-    else if r = 0x2F then pure (two 0x2F .integerDivide .divide)
+       | none => pure (tok .subtract sz)
+    else if r = 0x2E then two 0x2A .objectWildcard .dot          -- lexer.go:139
+    else if r = 0x2F then two 0x2F .integerDivide .divide        -- lexer.go:158
     else if r = 0x3A then pure (tok .colon sz)
-    else if r = 0x3C then pure (two 0x3D .lessOrEqual .less)
-    else if r = 0x3D then pure (two 0x3D .equal .assign)
-    else if r = 0x3E then pure (two 0x3D .greaterOrEqual .greater)
+    else if r = 0x3C then two 0x3D .lessOrEqual .less            -- lexer.go:185
+    else if r = 0x3D then two 0x3D .equal .assign                -- lexer.go:204
+    else if r = 0x3E then two 0x3D .greaterOrEqual .greater      -- lexer.go:223
     else if r = 0x40 then pure (tok .current sz)
-    else if r = 0x5B then
-      pure (match peek s sz with
+    else if r = 0x5B then do
+      let p ← peekT s sz                                         -- lexer.go:250
+      match p with
        | some (nr, nsz) =>
-         if nr = 0x2A then
-           (match peek s (sz + nsz) with
+         if nr = 0x2A then do
+           let q ← peekT s (sz + nsz)                            -- lexer.go:253, only after `[*`
+           pure (match q with
             | some (nnr, nnsz) => if nnr = 0x5D then tok .arrayWildcard (sz + nsz + nnsz) else tok .openSqBrace sz
             | none => tok .openSqBrace sz)
-         else if nr = 0x3F then tok .filter (sz + nsz)
-         else if nr = 0x5D then tok .flatten (sz + nsz)
-         else tok .openSqBrace sz
-       | none => tok .openSqBrace sz)
+         else if nr = 0x3F then pure (tok .filter (sz + nsz))
+         else if nr = 0x5D then pure (tok .flatten (sz + nsz))
+         else pure (tok .openSqBrace sz)
+       | none => pure (tok .openSqBrace sz)
     else if r = 0x5D then pure (tok .closeSqBrace sz)
     else if r = 0x60 then do
       let x ← scanDelimT 0x60 (s.length + 1) (s.drop sz) sz      -- lexer.go:410
@@ -214,12 +258,12 @@ def lexTokenT (s : Bytes) : T (Except LexErr (Token × Nat)) :=
        | .ok n => tok .jsonLiteral n
        | .error e => .error e)
     else if r = 0x7B then pure (tok .openBrace sz)
-    else if r = 0x7C then pure (two 0x7C .or .pipe)
+    else if r = 0x7C then two 0x7C .or .pipe                     -- lexer.go:312
     else if r = 0x7D then pure (tok .closeBrace sz)
     else if r = 0xD7 then pure (tok .multiply sz)
     else if r = 0xF7 then pure (tok .divide sz)
     else if r = 0x2212 then pure (tok .subtract sz)
-    else if r = 0x21 then pure (two 0x3D .notEqual .not)
+    else if r = 0x21 then two 0x3D .notEqual .not                -- lexer.go:365
     else if isDigitR r then do
       let k ← spanRunesT isDigitR s.length (s.drop sz)                                            -- lexer.go:440
       pure (tok .integerLiteral (sz + k))
@@ -241,10 +285,10 @@ theorem lexTokenT_fst (s : Bytes) : (lexTokenT s).1 = lexToken s := by
     obtain ⟨r, sz⟩ := q
     simp only []
     cases hp : peek s sz with
-    | none => simp only [apply_ite T.val, bind_fst, pure_fst, scanDelimT_fst, spanRunesT_fst]; rfl
+    | none => simp only [apply_ite T.val, bind_fst, pure_fst, scanDelimT_fst, spanRunesT_fst, peekT_fst, hp]; rfl
     | some q2 =>
       obtain ⟨nr, nsz⟩ := q2
-      simp only [apply_ite T.val, bind_fst, pure_fst, scanDelimT_fst, spanRunesT_fst]; rfl
+      simp only [apply_ite T.val, bind_fst, pure_fst, scanDelimT_fst, spanRunesT_fst, peekT_fst, hp]; rfl
 
 set_option hygiene false in
 /-- closes the per-branch goals of `lexTokenT_snd_le` -/
@@ -257,8 +301,9 @@ local macro "fin" : tactic => `(tactic| first
   | (split <;> first | omega | (simp only [tokBound_ok, tokBound_error]; omega) | (split <;> first | (simp only [tokBound_ok, tokBound_error]; omega) | (split <;> (simp only [tokBound_ok, tokBound_error]; omega))))
   | trace_state)
 
-/-- the budget of one `Next` call: the bytes of the token it returns plus one; after a lexical error, the
-    remaining input plus two -/
+/-- the budget of one `Next` call after its whitespace loop, in `decodeRune` calls: the bytes of the token it returns
+    plus one (reached by `[*x`: two look-aheads, a one-byte token); after a lexical error, the remaining input plus
+    two -/
 def tokBound (s : Bytes) : Except LexErr (Token × Nat) → Nat
   | .ok (_, n) => n + 1
   | .error _ => s.length + 2
@@ -266,14 +311,16 @@ def tokBound (s : Bytes) : Except LexErr (Token × Nat) → Nat
 @[simp] theorem tokBound_ok (s : Bytes) (t : Token) (n : Nat) : tokBound s (.ok (t, n)) = n + 1 := rfl
 @[simp] theorem tokBound_error (s : Bytes) (e : LexErr) : tokBound s (.error e) = s.length + 2 := rfl
 
-/-- the cost of `Next` (after the whitespace loop): at most one tick per byte of the token it returns, plus one;
-    on a lexical error at most one per remaining byte, plus two -/
+/-- the cost of `Next` after the whitespace loop, counting EVERY `decodeRune` call it makes (look-aheads, both decodes
+    of an escaped rune, the failing decode that ends an identifier or a number): at most one tick per byte of the
+    token it returns, plus one; on a lexical error at most one per remaining byte, plus two -/
 theorem lexTokenT_snd_le (s : Bytes) : (lexTokenT s).2 ≤ tokBound s (lexToken s) := by
   unfold lexTokenT lexToken
   cases h : lexDecode s with
   | error e => simp
   | ok q =>
     obtain ⟨r, sz⟩ := q
+    have hpos := Lex.lexDecode_pos h
     have a1 := scanDelimT_snd_le 0x22 (s.length + 1) (s.drop sz) sz
     have a2 := scanDelimT_snd_le 0x27 (s.length + 1) (s.drop sz) sz
     have a3 := scanDelimT_snd_le 0x60 (s.length + 1) (s.drop sz) sz
@@ -286,7 +333,7 @@ theorem lexTokenT_snd_le (s : Bytes) : (lexTokenT s).2 ≤ tokBound s (lexToken 
     simp only []
     cases hp : peek s sz with
     | none =>
-      simp only [apply_ite T.cost, bind_snd, pure_snd, bind_fst, scanDelimT_fst, spanRunesT_fst]
+      simp only [apply_ite T.cost, bind_snd, pure_snd, bind_fst, scanDelimT_fst, spanRunesT_fst, peekT_fst, peekT_snd, hp]
       by_cases h34 : r = 34
       · subst h34; simp only [reduceIte, Nat.reduceEqDiff]; fin
       simp only [h34, if_false]
@@ -379,9 +426,10 @@ theorem lexTokenT_snd_le (s : Bytes) : (lexTokenT s).2 ≤ tokBound s (lexToken 
       simp only [ha, if_false]; fin
     | some q2 =>
       obtain ⟨nr, nsz⟩ := q2
+      have hpos2 := (Lex.peek_some hp)
       have d1 := spanRunesT_snd_le isDigitR s.length (s.drop (sz + nsz))
       have d2 := spanRunesT_snd_le (fun r => isAlphaR r || isDigitR r) s.length (s.drop (sz + nsz))
-      simp only [apply_ite T.cost, bind_snd, pure_snd, bind_fst, scanDelimT_fst, spanRunesT_fst]
+      simp only [apply_ite T.cost, bind_snd, pure_snd, bind_fst, scanDelimT_fst, spanRunesT_fst, peekT_fst, peekT_snd, hp]
       by_cases h34 : r = 34
       · subst h34; simp only [reduceIte, Nat.reduceEqDiff]; fin
       simp only [h34, if_false]
@@ -473,36 +521,56 @@ theorem lexTokenT_snd_le (s : Bytes) : (lexTokenT s).2 ≤ tokBound s (lexToken 
       · simp only [ha, if_true]; fin
       simp only [ha, if_false]; fin
 
+/-- `[*x`: two look-aheads (`*`, then `x` ≠ `]`) for the one-byte token `[` — the bound `bytes + 1` is attained -/
+example : (lexTokenT [0x5B, 0x2A, 0x78]).1 = .ok (⟨.openSqBrace, [0x5B]⟩, 1) ∧ (lexTokenT [0x5B, 0x2A, 0x78]).2 = 2 :=
+  ⟨by rfl, by decide⟩
+/-- `<=`: one look-ahead; `<` at the end of the input: the look-ahead is made, fails, and is charged; `$a.`: the decode
+    of `variable` :544 (`a`), then the one iteration of the loop :557 that decodes `.` and stops; `%`: no decode -/
+example : (lexTokenT [0x3C, 0x3D]).2 = 1 ∧ (lexTokenT [0x3C]).2 = 1 ∧ (lexTokenT [0x24, 0x61, 0x2E]).2 = 2 ∧
+    (lexTokenT [0x25]).2 = 0 := by decide
 
 /-! ## whitespace, and the token stream -/
 
 /-- body of lexer.go:28, the loop at the top of `Next`: `r, sz, err = l.decodeRune(l.position); if err != nil
-    { return err }; if r is not blank { break }; l.position += sz; if l.position == len(l.expression) { …End }`
-    (with the test lexer.go:17 `l.position == len(l.expression)` before the loop) -/
+    { return err }; if r is not blank { break }; l.position += sz; if l.position == len(l.expression) { …End }`.
+    The decode at the head of the iteration is the tick of the `forBrkT` iteration.  The iteration that breaks on a
+    non-blank rune `r` (or on a decoding error) is charged like the others: it is the decode whose result `Next`
+    then dispatches on (`lexTokenT` re-reads it for free).  The exit `.brk []` is the test lexer.go:40 — no decode
+    is made on the empty rest, and none is charged. -/
 def skipWsBody (s : Bytes) : T (Ctl Bytes) :=
+  match lexDecode s with
+  | .ok (r, sz) =>
+    if isWsR r then
+      (match s.drop sz with
+       | [] => pure (.brk [])                                   -- lexer.go:40
+       | s' => pure (.next s'))
+    else pure (.brk s)
+  | .error _ => pure (.brk s)
+
+/-- lexer.go:17 `if l.position == len(l.expression)` (no decode, no tick), then lexer.go:28 `for { … }` -/
+def skipWsT (fuel : Nat) (s : Bytes) : T Bytes :=
   match s with
-  | [] => pure (.brk [])
-  | _ =>
-    match lexDecode s with
-    | .ok (r, sz) => if isWsR r then pure (.next (s.drop sz)) else pure (.brk s)
-    | .error _ => pure (.brk s)
+  | [] => pure []
+  | _ => do
+    let r ← forBrkT skipWsBody fuel s
+    pure r.get
 
-/-- lexer.go:28 `for { … }` -/
-def skipWsT (fuel : Nat) (s : Bytes) : T Bytes := do
-  let r ← forBrkT skipWsBody fuel s
-  pure r.get
+theorem skipWsLex_nil : ∀ fuel : Nat, skipWsLex fuel [] = []
+  | 0 => rfl
+  | _ + 1 => rfl
 
-theorem skipWsLoop : ∀ (fuel : Nat) (s : Bytes),
+theorem skipWsLoop : ∀ (fuel : Nat) (s : Bytes), s ≠ [] →
     (forBrkT skipWsBody fuel s).1.get = skipWsLex fuel s ∧
-    (forBrkT skipWsBody fuel s).2 + (skipWsLex fuel s).length ≤ s.length + 1 := by
+    (forBrkT skipWsBody fuel s).2 + (skipWsLex fuel s).length ≤ s.length + 1 ∧
+    (skipWsLex fuel s = [] → (forBrkT skipWsBody fuel s).2 ≤ s.length) := by
   intro fuel
   induction fuel with
-  | zero => intro s; exact ⟨rfl, by simp [forBrkT, skipWsLex]⟩
+  | zero => intro s _; exact ⟨rfl, by simp [forBrkT, skipWsLex], by simp [forBrkT]⟩
   | succ fuel ih =>
-    intro s
+    intro s hne
     rw [forBrkT_succ_fst, forBrkT_succ_snd]
     cases s with
-    | nil => simp [skipWsBody, skipWsLex, Ctl.get]
+    | nil => exact absurd rfl hne
     | cons b t =>
       simp only [skipWsBody, skipWsLex]
       cases h : lexDecode (b :: t) with
@@ -514,24 +582,50 @@ theorem skipWsLoop : ∀ (fuel : Nat) (s : Bytes),
         cases hw : isWsR r with
         | false => simp [Ctl.get]; omega
         | true =>
-          have := ih ((b :: t).drop sz)
-          rw [List.length_drop] at this
-          simp only [if_true, pure_fst, pure_snd]
-          refine ⟨this.1, ?_⟩
-          have := this.2; omega
+          simp only [if_true]
+          cases hd : (b :: t).drop sz with
+          | nil =>
+            simp only [pure_fst, pure_snd, Ctl.get, skipWsLex_nil]
+            simp only [List.length_cons] at hpos
+            simp only [List.length_nil, List.length_cons]
+            exact ⟨trivial, by omega, fun _ => by omega⟩
+          | cons b' t' =>
+            have := ih (b' :: t') (by simp)
+            have hl : (b' :: t').length = (b :: t).length - sz := by rw [← hd, List.length_drop]
+            simp only [pure_fst, pure_snd]
+            refine ⟨this.1, by omega, fun h0 => ?_⟩
+            have := this.2.2 h0; omega
 
 /-- the whitespace loop returns what the model's `skipWsLex` returns … -/
 theorem skipWsT_fst (fuel : Nat) (s : Bytes) : (skipWsT fuel s).1 = skipWsLex fuel s := by
-  simp [skipWsT, (skipWsLoop fuel s).1]
-/-- … in one iteration per byte skipped, plus the one that stops -/
+  cases s with
+  | nil => simp [skipWsT, skipWsLex_nil]
+  | cons b t => simp [skipWsT, (skipWsLoop fuel (b :: t) (by simp)).1]
+/-- … in one decode per byte skipped, plus the one that stops -/
 theorem skipWsT_snd_le (fuel : Nat) (s : Bytes) :
     (skipWsT fuel s).2 + (skipWsLex fuel s).length ≤ s.length + 1 := by
-  simp only [skipWsT, bind_snd, pure_snd]; have := (skipWsLoop fuel s).2; omega
+  cases s with
+  | nil => simp [skipWsT, skipWsLex_nil]
+  | cons b t =>
+    simp only [skipWsT, bind_snd, pure_snd]; have := (skipWsLoop fuel (b :: t) (by simp)).2.1; omega
+/-- … and when only blanks were left (the `End` token), in exactly no more decodes than bytes -/
+theorem skipWsT_snd_le_end (fuel : Nat) (s : Bytes) (h : skipWsLex fuel s = []) : (skipWsT fuel s).2 ≤ s.length := by
+  cases s with
+  | nil => simp [skipWsT]
+  | cons b t =>
+    simp only [skipWsT, bind_snd, pure_snd]; have := (skipWsLoop fuel (b :: t) (by simp)).2.2 h; omega
 
+/-- two blanks, then `a`: three decodes (the third one is the `a` that `Next` dispatches on) -/
 example : skipWsT 10 [0x20, 0x20, 0x61] = ⟨[0x61], 3⟩ := by decide
+/-- no blank: the loop still makes the one decode of the rune that `Next` dispatches on -/
+example : skipWsT 10 [0x61] = ⟨[0x61], 1⟩ := by decide
+/-- only blanks: one decode each, and the test lexer.go:40 ends the loop without another decode; the empty input:
+    the test lexer.go:17, no decode -/
+example : skipWsT 2 [0x20, 0x20] = ⟨[], 2⟩ ∧ skipWsT 0 [] = ⟨[], 0⟩ := by decide
 
 /-- one round of the parser pulling a token (parser.go:20/24/39/43/47 `p.lex.Next(…)`): the whitespace loop, the end
-    test, the token; the state is (remaining input, (tokens so far, outcome)) -/
+    test, the token; the state is (remaining input, (tokens so far, outcome)).  The decodes of one `Next` are those of
+    `skipWsT` (the last of which is the rune the `switch` dispatches on) plus those of `lexTokenT`. -/
 def lexAllBody (st : Bytes × (List Token × Option LexErr)) : T (Ctl (Bytes × (List Token × Option LexErr))) := do
   let s' ← skipWsT st.1.length st.1                             -- lexer.go:28
   match s' with
@@ -543,7 +637,7 @@ def lexAllBody (st : Bytes × (List Token × Option LexErr)) : T (Ctl (Bytes × 
     | .ok (t, n) => pure (.next (s'.drop (max n 1), (st.2.1 ++ [t], st.2.2)))
 
 /-- all the `Next` calls of one `Parse`: at most `len(expression) + 1` of them, since every token spans at least one
-    byte -/
+    byte.  The `forBrkT` tick of an iteration here is not a decode: it counts the `Next` CALL. -/
 def lexAllT (s : Bytes) : T (List Token × Option LexErr) := do
   let r ← forBrkT lexAllBody (s.length + 1) (s, ([], some .unexpectedEnd))
   pure r.get.2
@@ -598,8 +692,11 @@ theorem lexAllLoop : ∀ (fuel : Nat) (s : Bytes) (acc : List Token),
 theorem lexAllT_fst (s : Bytes) : (lexAllT s).1 = lexAll s := by
   simp [lexAllT, lexAll, (lexAllLoop (s.length + 1) s []).1]
 
-/-- … in at most `4·|expr| + 4` ticks: one forward pass; whitespace, identifiers, numbers and literals are each
-    scanned once, and the position strictly increases with every token -/
+/-- … in at most `4·|expr| + 4` ticks, where the ticks are ALL the `decodeRune` calls of all the `Next` calls (loop
+    heads, look-aheads, second decodes of escapes, failing decodes) plus one per `Next` call: one forward pass;
+    whitespace, identifiers, numbers and literals are each scanned once, and the position strictly increases with
+    every token.  (Per `Next`: 1 for the call, `w + 1` for `w` blanks and the dispatching rune, at most `n + 1` for a
+    token of `n ≥ 1` bytes: `w + n + 3 ≤ 4·(w + n)`.) -/
 theorem lexAllT_snd_le (s : Bytes) : (lexAllT s).2 ≤ 4 * s.length + 4 := by
   simp only [lexAllT, bind_snd, pure_snd]; have := (lexAllLoop (s.length + 1) s []).2; omega
 
@@ -632,8 +729,15 @@ theorem lexAll_length (s : Bytes) : (lexAll s).1.length ≤ s.length + 1 := lexA
 
 example : (lexAll [0x61, 0x2E, 0x62]).1.length = 4 := by decide
 
-/-- `foo[?bar > `1`]` (16 bytes) -/
+/-- `foo[?bar > `1`]` (15 bytes) -/
 example : (lexAllT [0x66, 0x6F, 0x6F, 0x5B, 0x3F, 0x62, 0x61, 0x72, 0x20, 0x3E, 0x20, 0x60, 0x31, 0x60, 0x5D]).2 ≤ 64 :=
   lexAllT_snd_le _
+/-- … exactly: 7 `Next` calls making 4 (`foo`: `f`, `o`, `o`, and the `[` that stops), 2 (`[`, look-ahead `?`),
+    4 (`bar` and the blank that stops), 3 (blank, `>`, look-ahead blank), 4 (blank, `` ` ``, `1`, `` ` ``), 1 (`]`) and
+    0 (`End`, lexer.go:17) decodes: 18 + 7 = 25 ticks -/
+example : (lexAllT [0x66, 0x6F, 0x6F, 0x5B, 0x3F, 0x62, 0x61, 0x72, 0x20, 0x3E, 0x20, 0x60, 0x31, 0x60, 0x5D]).2 = 25 := by
+  decide
+/-- `[*[*`: 4 `Next` calls + `End`; decodes 3 (`[`, `*`, `[`), 1, 3 (`[`, `*`, and the failing look-ahead), 1, 0 -/
+example : (lexAllT [0x5B, 0x2A, 0x5B, 0x2A]).2 = 13 := by decide
 
 end Jmes.C09C
